@@ -19,7 +19,7 @@
    client always addresses an upload with the key it was created with.
    CompleteMultipartUpload carries the part numbers of the request body
    (<Part><PartNumber>); the gateway never reads that body, the specification does. *)
-From Coq Require Import List NArith ZArith Bool String Arith.
+From Coq Require Import List NArith ZArith Bool String Ascii Arith.
 From SW Require Import model.HttpRange.
 Import ListNotations.
 Local Open Scope N_scope.
@@ -456,20 +456,114 @@ Definition put_part (c : cfg) (st : state) (u n : N) (b : bytes) : state * res *
       end
   end.
 
+(* 7: CopyObjectHandler / CopyObjectPartHandler paste the RAW key into the filer URL
+   (fmt.Sprintf("http://%s%s/%s%s", filer, BucketsPath, bucket, object)) where every other route
+   escapes it (urlPathEscape) or hands the literal key to the filer over gRPC: net/url then cuts the
+   path at the first '?' or '#' (query / fragment) and percent-decodes what is left; an invalid
+   escape makes http.NewRequest fail.  raw_path k = the key the filer sees (None: no URL). *)
+Definition hex_val (c : ascii) : option N :=
+  let n := N_of_ascii c in
+  if (48 <=? n) && (n <=? 57) then Some (n - 48)
+  else if (65 <=? n) && (n <=? 70) then Some (n - 55)
+  else if (97 <=? n) && (n <=? 102) then Some (n - 87)
+  else None.
+Definition is_cut (c : ascii) : bool := Ascii.eqb c "?"%char || Ascii.eqb c "#"%char.
+Definition is_meta (c : ascii) : bool := Ascii.eqb c "%"%char || is_cut c.
+Fixpoint seg_cut (g : string) : string * bool :=
+  match g with
+  | EmptyString => (EmptyString, false)
+  | String a r => if is_cut a then (EmptyString, true)
+                  else let (t, b) := seg_cut r in (String a t, b)
+  end.
+Fixpoint seg_unescape (g : string) : option string :=
+  match g with
+  | EmptyString => Some EmptyString
+  | String a r =>
+      if Ascii.eqb a "%"%char then
+        match r with
+        | String h (String l r') =>
+            match hex_val h, hex_val l, seg_unescape r' with
+            | Some x, Some y, Some t => Some (String (ascii_of_N (x * 16 + y)) t)
+            | _, _, _ => None
+            end
+        | _ => None
+        end
+      else match seg_unescape r with Some t => Some (String a t) | None => None end
+  end.
+Fixpoint seg_meta (g : string) : bool :=
+  match g with
+  | EmptyString => false
+  | String a r => is_meta a || seg_meta r
+  end.
+Definition raw_meta (k : path) : bool := existsb seg_meta k.
+Fixpoint raw_cut (k : path) : path :=
+  match k with
+  | [] => []
+  | g :: r => let (t, b) := seg_cut g in if b then [t] else t :: raw_cut r
+  end.
+Fixpoint raw_unescape (k : path) : option path :=
+  match k with
+  | [] => Some []
+  | g :: r => match seg_unescape g, raw_unescape r with
+              | Some a, Some b => Some (a :: b)
+              | _, _ => None
+              end
+  end.
+Definition raw_path (k : path) : option path := raw_unescape (raw_cut k).
+
+(* CopyObject after the same-key test, on the paths the filer sees (None: the URL does not parse:
+   util.DownloadFile / putToFiler fail before anything is sent) *)
+Definition copy_obj (c : cfg) (st : state) (osrc odst : option path) : state * res * list N :=
+  let s := st_store st in
+  match osrc, odst with
+  | Some src, Some dst =>
+      match find_node s src with
+      | None => (st, RErr, [])                            (* the source GET answers 404: ErrInvalidCopySource *)
+      | Some _ =>
+          let (s', ok) := http_put s dst (store_body c (fetch_any s src)) in
+          ({| st_store := s'; st_ups := st_ups st |}, if ok then ROk else RErr,
+           flag 2 (trig_write s dst) ++ flag 2 (is_dir_at s src))
+      end
+  | _, _ => (st, RErr, [])
+  end.
+
+(* UploadPartCopy, the source as the filer sees it; raw: the source key has a URL meta character
+   (trigger 7 is raised only when the source URL is really used: after the upload and the part
+   number have been accepted) *)
+Definition mp_copy (c : cfg) (st : state) (u n : N) (raw : bool) (osrc : option path) (r : option (N * N))
+  : state * res * list N :=
+  let s := st_store st in
+  match get_upload st u with
+  | None => (st, RNoUpload, [])
+  | Some up =>
+      match u_dir up with
+      | None => (st, RNoUpload, [])                        (* the upload must exist, as for PutObjectPart *)
+      | Some d =>
+          if part_refused n then (st, RErr, [])
+          else match osrc with
+               | None => (st, RErr, flag 7 raw)           (* http.NewRequest fails: ErrInvalidCopySource *)
+               | Some src =>
+                   match fetch_range s src r with
+                   | None => (st, RErr, flag 7 raw)       (* ErrInvalidCopySource *)
+                   | Some data =>
+                       (set_updir st u up (Some (dir_put (part_name n) (store_body c data) d)), ROk,
+                        flag 7 raw ++ flag 2 (is_dir_at s src) ++ flag 3 (range_at_end s src r))
+                   end
+               end
+      end
+  end.
+
 Definition step (c : cfg) (st : state) (o : op) : state * res * list N :=
   let s := st_store st in
   match o with
   | Put k b => put_obj c st k b
   | PutS k b tampered => if tampered then (st, RErr, []) else put_obj c st k b
   | Copy src dst =>
-      if path_eqb src dst then (st, RErr, [])                 (* ErrInvalidCopyDest *)
-      else match find_node s src with
-           | None => (st, RErr, [])                            (* the source GET answers 404: ErrInvalidCopySource *)
-           | Some _ =>
-               let (s', ok) := http_put s dst (store_body c (fetch_any s src)) in
-               ({| st_store := s'; st_ups := st_ups st |}, if ok then ROk else RErr,
-                flag 2 (trig_write s dst) ++ flag 2 (is_dir_at s src))
-           end
+      if path_eqb src dst then (st, RErr, [])                 (* ErrInvalidCopyDest: compares the literal keys *)
+      else if raw_meta src || raw_meta dst then
+        (* finding 7: srcUrl / dstUrl are built from the raw keys *)
+        let '(st', r, fl) := copy_obj c st (raw_path src) (raw_path dst) in (st', r, 7 :: fl)
+      else copy_obj c st (Some src) (Some dst)
   | Get k r => (st, get_obj s k r, [])
   | Del k => ({| st_store := delete_recursive s k; st_ups := st_ups st |}, ROk, flag 1 (has_file_below s k))
   | BatchDel ks => ({| st_store := batch_delete s ks; st_ups := st_ups st |}, ROk, [])
@@ -485,21 +579,8 @@ Definition step (c : cfg) (st : state) (o : op) : state * res * list N :=
                    end
       end
   | MpCopy u n src r =>
-      match get_upload st u with
-      | None => (st, RNoUpload, [])
-      | Some up =>
-          match u_dir up with
-          | None => (st, RNoUpload, [])                        (* the upload must exist, as for PutObjectPart *)
-          | Some d =>
-              if part_refused n then (st, RErr, [])
-              else match fetch_range s src r with
-                   | None => (st, RErr, [])                   (* ErrInvalidCopySource *)
-                   | Some data =>
-                       (set_updir st u up (Some (dir_put (part_name n) (store_body c data) d)), ROk,
-                        flag 2 (is_dir_at s src) ++ flag 3 (range_at_end s src r))
-                   end
-          end
-      end
+      if raw_meta src then mp_copy c st u n true (raw_path src) r   (* finding 7 *)
+      else mp_copy c st u n false (Some src) r
   | MpComplete u ns =>
       match get_upload st u with
       | None => (st, RNoUpload, [])
